@@ -283,7 +283,8 @@ class TaskDispatcher(object):
         if branch_id and execution_arn in branch_metadata:
             # Get the dict containing all the branch results for this execution
             all_branch_results = branch_metadata[execution_arn].results
-            branch_results = all_branch_results[branch_id]
+            # (not present if the results were lost in a restart)
+            branch_results = all_branch_results.get(branch_id, {})
             if branch_results.get("terminated"):
                 return True
         return False
